@@ -108,21 +108,44 @@ Proof.
   - reflexivity.
 Qed.
 
-(* Crash points: if a step writes the lease but its reply is lost (a crash
-   between the INSERT and the send; equally a dropped packet or a duplicate ACK
-   the client discards), the statement of C01_no_double_allocation does NOT
-   extend to such histories -- the faithful model has a counterexample (a
-   renewal 1 s after the previous one shortens the record from 1600 to 1451;
-   the address is then granted to another client at 1452 while the first one
-   was last told 1600).  Recorded as observation O1 in design/C01.md. *)
+(* Crash points / lost replies: a step may write the lease while its reply never
+   reaches the client (a crash between the INSERT and the send, a dropped packet,
+   a duplicate ACK the client discards).  Such a step changes the store but is
+   not logged as a grant.  The property still holds over every such history
+   (one configured maximum M per history): since the repair of observation O1
+   (design/C01.md) a renewal is granted at least the remainder of the current
+   lease, so the server's record never ends before the latest expiry the client
+   was told. *)
 From Erbium Require Import Proofs.DhcpPoolCrash.
-Theorem C01_lost_reply_refuted :
-  exists h d log,
-    wf_history (map fst h) = true /\ run_lossy h = Some (d, log) /\
-    exists a b x t, a <> b /\ holds log a x t /\ holds log b x t.
-Proof. exact lost_reply_refuted. Qed.
-Check C01_lost_reply_refuted :
-  exists h d log,
-    wf_history (map fst h) = true /\ run_lossy h = Some (d, log) /\
-    exists a b x t, a <> b /\ holds log a x t /\ holds log b x t.
-Print Assumptions C01_lost_reply_refuted.
+Theorem C01_no_double_allocation_lossy :
+  forall M h, wf_lossy M h = true ->
+  forall d log, run_lossy h = Some (d, log) ->
+  forall a b x t, a <> b -> ~ (holds log a x t /\ holds log b x t).
+Proof. exact no_double_allocation_lossy. Qed.
+Check C01_no_double_allocation_lossy :
+  forall M h, wf_lossy M h = true ->
+  forall d log, run_lossy h = Some (d, log) ->
+  forall a b x t, a <> b -> ~ (holds log a x t /\ holds log b x t).
+Print Assumptions C01_no_double_allocation_lossy.
+
+(* the O1 history: told 450 s at 1150; the lost renewal at 1151 is now granted the
+   remaining 449 s (not 300), so the address is still the first client's at 1452 *)
+Definition ex_lossy : list (event * bool) :=
+  [ (EAlloc (ex_op ex_a None [10]) 1000 1000 (Granted 10 300 NewAddress), false);
+    (EAlloc (ex_op ex_a None [10]) 1150 1150 (Granted 10 450 ReusingLease), false);
+    (EAlloc (ex_op ex_a None [10]) 1151 1151 (Granted 10 449 ReusingLease), true);
+    (EAlloc (ex_op ex_b None [10]) 1452 1452 NoAddress, false);
+    (ETick 148, false);
+    (EAlloc (ex_op ex_b None [10]) 1601 1601 (Granted 10 300 NewAddress), false) ].
+Example C01_example_lossy :
+  wf_lossy 86400 ex_lossy = true /\
+  (exists d log, run_lossy ex_lossy = Some (d, log) /\ length log = 3%nat) /\
+  (* the pre-repair answer (300 s, record cut to 1451) is no longer admitted *)
+  run_lossy [ (EAlloc (ex_op ex_a None [10]) 1000 1000 (Granted 10 300 NewAddress), false);
+              (EAlloc (ex_op ex_a None [10]) 1150 1150 (Granted 10 450 ReusingLease), false);
+              (EAlloc (ex_op ex_a None [10]) 1151 1151 (Granted 10 300 ReusingLease), true) ] = None.
+Proof.
+  split. reflexivity. split.
+  - eexists. eexists. split. vm_compute. reflexivity. reflexivity.
+  - reflexivity.
+Qed.
